@@ -308,7 +308,7 @@ CLAIMED = {
              "that exception (drop the entry, traverse from the root - cstepDR) never raises on a database complete for the current "
              "version (raw_step_with_retry), and the WHOLE raw-level walk over a database that changes between steps (crunDR) never "
              "raises, meets only pairs some version held, and has met every stable key once the fog is complete "
-             "(raw_walk_finds_stable_and_sound; its premise SchedOk is what earlier_versions_consistent provides along executor "
+             "(raw_walk_finds_stable_and_sound; when every prefix is taken from the fog no step is rejected: raw_walk_never_stuck; the premise SchedOk is what earlier_versions_consistent provides along executor "
              "histories). Tie: real walks with the real cache against the model, each whole step compared with cstep, cstepD and "
              "cstepDR (retry included, cache keys compared) as one transition; a bystander walk with its own cache is judged model-free.",
         technique="Lean 4 proof (walk invariant over arbitrary schedules, well-founded measure) + correspondence check on real walks",
